@@ -31,6 +31,7 @@ RULES = {
     "R-block": "one block expression of a function (located by its header) wrapped as a function whose parameters are the block's free variables; only that block's statements are verified",
     "R-head": "the statements of a function (or, with `inside`, of one located block in it) from its beginning up to a located statement (e.g. the argument validation in front of an allocation, the poll at the head of a loop body), wrapped as a function that returns a marker when the end of the head is reached",
     "R-tail": "the statements of a function (or, with `inside`, of one located block in it: a loop body, a closure body) from a located statement to the end of that body -- or, with `end`, up to another located statement -- wrapped as a function whose parameters are the live variables at that point",
+    "R-await": "`.await` dropped: the extracted statements are verified as if the awaited future completed in place; suspension, scheduling and cancellation are not modelled",
     "R-slice": "slice/Vec API call mapped to the env helper with the std semantics stated as its contract",
 }
 
